@@ -79,6 +79,14 @@ fn member(g: &mut G, has_base: bool) -> Value {
             if g.chance(1, 3) {
                 return tuple_member(g.below(4));
             }
+            // an untyped enumeration of mixed literals on one side, a type restriction on the other
+            if g.chance(1, 4) {
+                return match g.below(3) {
+                    0 => json!({"type": "object", "properties": {"n": {"enum": [1, 2, 3.5, "auto"]}}}),
+                    1 => json!({"type": "object", "properties": {"n": {"type": "number"}}, "required": ["n"]}),
+                    _ => json!({"type": "object", "properties": {"n": {"type": "number"}}}),
+                };
+            }
             match k {
                 3 => json!({"type": "object", "properties": {"a": {"type": "number"}}}),
                 4 => json!({"type": "object", "properties": {"b": {"type": "string", "maxLength": 20}}}),
@@ -174,8 +182,22 @@ pub fn gen_c09_case(g: &mut G) -> Value {
     let unsat = g.chance(1, 5);
     // (in unsatisfiable cases Base is a closed object over `a`, so that a reference to it can play the closed sibling)
     let base = if unsat { json!({"type": "object", "properties": {"a": {"type": "integer"}}, "required": ["a"], "additionalProperties": false}) } else { object_member(g) };
+    let scalar = !unsat && g.chance(1, 10);
     let members: Vec<Value> = if unsat {
         unsat_members(g)
+    } else if scalar {
+        // conjunction of scalar restrictions: an enumeration of mixed literals and a type
+        let lits = match g.below(3) {
+            0 => json!([1, 2, 3.5, "auto"]),
+            1 => json!([10, 20, "auto"]),
+            _ => json!(["a", 7, 2.5, true]),
+        };
+        let ty = *g.pick(&["number", "integer", "string"]);
+        let mut v = vec![json!({"enum": lits}), json!({"type": ty})];
+        if g.chance(1, 2) {
+            v.reverse();
+        }
+        v
     } else if g.chance(1, 5) {
         // array item schemas: two or three members constraining the same tuple-typed property
         let mut ks = vec![0usize, 1, 2, 3];
@@ -213,6 +235,21 @@ pub fn gen_c09_case(g: &mut G) -> Value {
     let u = Value::Object(union);
     for (_, m) in mutants(g, &u, 8) {
         cands.push(m);
+    }
+    // every literal of the mixed enumeration, on the shared property and on its own
+    if let Some(uo) = u.as_object() {
+        if members.iter().any(|m| m["properties"].get("n").is_some()) {
+            for lit in [json!(1), json!(2), json!(3.5), json!("auto"), json!(7), json!(2.0)] {
+                let mut o = uo.clone();
+                o.insert("n".into(), lit);
+                cands.push(Value::Object(o));
+            }
+        }
+    }
+    if scalar {
+        for lit in [json!(1), json!(2), json!(3.5), json!("auto"), json!(10), json!(20), json!("a"), json!(7), json!(2.5), json!(true), json!(4), json!("zz")] {
+            cands.push(lit);
+        }
     }
     cands.push(u);
     cands.push(inst.gen(g, &doc["definitions"]["P00"], 3));
@@ -302,6 +339,12 @@ impl Property for C09 {
                 (0..4).any(|k| m == &tuple_member(k))
                     || m == &json!({"$ref": "#/definitions/Base"})
                     || m == &json!({"type": "string"})
+                    || m == &json!({"type": "number"})
+                    || m == &json!({"type": "integer"})
+                    || (m.as_object().map(|o| o.len() == 1).unwrap_or(false) && m.get("enum").and_then(|e| e.as_array()).map(|e| !e.is_empty() && e.iter().all(|x| !x.is_object() && !x.is_array() && !x.is_null())).unwrap_or(false))
+                    || m == &json!({"type": "object", "properties": {"n": {"enum": [1, 2, 3.5, "auto"]}}})
+                    || m == &json!({"type": "object", "properties": {"n": {"type": "number"}}, "required": ["n"]})
+                    || m == &json!({"type": "object", "properties": {"n": {"type": "number"}}})
                     || obj_ok(m)
                     || m == &nested_one_of()
             })
